@@ -105,6 +105,7 @@ ObsInit == [
   best     |-> [v \in VB |-> 0],          \* highest seqno that all listed copies have ever reported together under one vbUUID
   gwait    |-> [v \in VB |-> 0 - 1],      \* seqno of the event handed to the observer while the gate was on (-1: none)
   padv     |-> [v \in VB |-> 0 - 1],      \* C05 obligation of that event, due when it takes effect
+  incb     |-> "",                        \* C11: the lifecycle callback the user's handler is still inside ("": none known)
   hadv     |-> [v \in VB |-> 0 - 1],      \* C05 obligation of an acknowledgement whose Ack() call has not returned yet (AckHeld .. AckDone)
   psess    |-> [v \in VB |-> 0 - 1],      \* position that event settles when it takes effect (-1: none)
   pdead    |-> [v \in VB |-> FALSE],      \* ... on a stream the library had already closed
@@ -136,7 +137,7 @@ ApBoot(o, e) ==
             !.adv = [v \in VB |-> 0 - 1], !.conf = [v \in VB |-> StoreSeq(o, v)], !.news = FALSE, !.owned = {},
             !.gate = FALSE, !.tab = [v \in VB |-> <<>>], !.best = [v \in VB |-> 0], !.gwait = [v \in VB |-> 0 - 1],
             !.padv = [v \in VB |-> 0 - 1], !.psess = [v \in VB |-> 0 - 1], !.pdead = [v \in VB |-> FALSE], !.lthr = [v \in VB |-> 0],
-            !.hadv = [v \in VB |-> 0 - 1]]
+            !.hadv = [v \in VB |-> 0 - 1], !.incb = ""]
 
 ApDied(o, e) == [o EXCEPT !.up = FALSE, !.mustdie = FALSE, !.pend = {}, !.pendopen = {}]
 
@@ -435,8 +436,11 @@ NextPhase(ph, n) ==
 
 ApCallback(o, e) ==
   LET np == NextPhase(o.phase, e.name)
-      o0 == IF np = "bad" THEN Viol(o, "C11", "lifecycle callbacks are not properly bracketed")
+      oa == IF np = "bad" THEN Viol(o, "C11", "lifecycle callbacks are not properly bracketed")
             ELSE [o EXCEPT !.phase = np]
+      \* the next rebalance begins while the handler of a callback of the previous one has not returned: the brackets overlap
+      o0 == IF e.name = "BeforeRebalanceStart" /\ o.incb # ""
+            THEN Viol(oa, "C11", "a rebalance began while a lifecycle callback of the previous one was still being handled") ELSE oa
       o1 == IF e.name = "BeforeStreamStop" THEN [o0 EXCEPT !.closing = TRUE]
             ELSE IF e.name = "AfterStreamStop"
                  \* the session is over: nothing is assigned any more, unsaved positions of the session are given up
@@ -603,6 +607,8 @@ Apply(o, e) ==
     [] e.ev = "SaveEnd"    -> ApSaveEnd(o, e)
     [] e.ev = "SaveRet"    -> ApSaveRet(o, e)
     [] e.ev = "Callback"   -> ApCallback(o, e)
+    [] e.ev = "CallbackHeld" -> [o EXCEPT !.incb = e.name]
+    [] e.ev = "CallbackDone" -> [o EXCEPT !.incb = ""]
     [] e.ev = "State"      -> ApState(o, e)
     [] OTHER               -> o
 
